@@ -1411,3 +1411,249 @@ func TemplateCopies(c *core.Ctx, rule string, pkgs []*packages.Package, floor in
 	}
 	c.Floor(rule, "generated namesakes compared", n, floor)
 }
+
+// ---------------------------------------------------------------- R-FUTSTOP
+
+// FutStop: a later Future operand is subscribed to only after the earlier one is known to have succeeded.
+func FutStop(c *core.Ctx, rule string, pkgs []*packages.Package, floor int) {
+	c.Rule(rule, "inside the OnComplete callback func(t fp.Try[_]) of one Future operand, a subscription to another Future operand of the same combinator is reachable only through a condition that examines t: when the earlier operand has failed the result is decided and must not wait for the later one (left-to-right short-circuit, completes as soon as the sources it depends on are complete)")
+	n := 0
+	for _, fb := range funcBodies(c, pkgs) {
+		if fb.Lit == nil || fb.Decl == nil {
+			continue
+		}
+		info := fb.Pkg.TypesInfo
+		// the literal is an OnComplete-style callback: one parameter of type fp.Try
+		if len(fb.Lit.Type.Params.List) != 1 || len(fb.Lit.Type.Params.List[0].Names) != 1 {
+			continue
+		}
+		t := info.Defs[fb.Lit.Type.Params.List[0].Names[0]]
+		if t == nil || !isNamed(t.Type(), "fp", "Try") {
+			continue
+		}
+		// Future operands of the enclosing declaration
+		ops := map[types.Object]bool{}
+		if fb.Decl.Recv != nil && len(fb.Decl.Recv.List) == 1 && len(fb.Decl.Recv.List[0].Names) == 1 {
+			if o := info.Defs[fb.Decl.Recv.List[0].Names[0]]; o != nil && isFutureType(o.Type()) {
+				ops[o] = true
+			}
+		}
+		for _, f := range fb.Decl.Type.Params.List {
+			for _, nm := range f.Names {
+				if o := info.Defs[nm]; o != nil && isFutureType(o.Type()) {
+					ops[o] = true
+				}
+			}
+		}
+		if len(ops) < 2 {
+			continue
+		}
+		g := newCFG(c, fb)
+		k := 0
+		isSub := func(nd ast.Node) (types.Object, bool) {
+			var hit types.Object
+			nodeContains(nd, false, func(y ast.Node) bool {
+				call, ok := y.(*ast.CallExpr)
+				if !ok {
+					return false
+				}
+				if sel, ok := ast.Unparen(call.Fun).(*ast.SelectorExpr); ok {
+					if o := objOf(info, sel.X); o != nil && ops[o] {
+						hit = o
+						return true
+					}
+				}
+				if len(call.Args) > 0 {
+					if o := objOf(info, call.Args[0]); o != nil && ops[o] {
+						hit = o
+						return true
+					}
+				}
+				return false
+			})
+			return hit, hit != nil
+		}
+		for _, b := range g.Blocks {
+			for _, nd := range b.Nodes {
+				o, ok := isSub(nd)
+				if !ok {
+					continue
+				}
+				k++
+				n++
+				key := fb.Name + "/sub#" + itoa(k) + ":" + o.Name()
+				target := func(x ast.Node) bool { return x == nd }
+				guard := func(x ast.Node) bool {
+					return isCondNode(x) && nodeContains(x, true, func(y ast.Node) bool {
+						id, ok := y.(*ast.Ident)
+						return ok && info.Uses[id] == t
+					})
+				}
+				if len(g.Blocks) > 0 && unguardedReach(g.Blocks[0], -1, target, guard) != nil {
+					c.Add(rule, key, nd.Pos(), core.Violated, "the callback subscribes to "+o.Name()+" without first examining "+t.Name()+": when the earlier operand has failed the derived future still waits for "+o.Name()+" — and never completes if "+o.Name()+" never does")
+				} else {
+					c.Add(rule, key, nd.Pos(), core.Discharged, "subscribed to only after "+t.Name()+" was examined")
+				}
+			}
+		}
+	}
+	c.Floor(rule, "subscriptions to another operand inside a completion callback", n, floor)
+}
+
+// ---------------------------------------------------------------- R-RAWFIELD
+
+// RawField: the closures of an fp.Iterator value are called through its nil-safe methods.
+func RawField(c *core.Ctx, rule string, p *packages.Package, floor int) {
+	c.Rule(rule, "a closure field of fp.Iterator (hasNext, next) is called directly only on the method's own receiver (where R-NILGUARD decides whether the nil test dominates) or under an explicit nil test of that field; on any other Iterator value — an element of the concat list, a parameter, a copy — the nil-safe methods HasNext/Next are used, because that value may be the zero Iterator")
+	info := p.TypesInfo
+	n := 0
+	for _, fb := range funcBodies(c, []*packages.Package{p}) {
+		var recv types.Object
+		if fb.Decl != nil && fb.Decl.Recv != nil && len(fb.Decl.Recv.List) == 1 && len(fb.Decl.Recv.List[0].Names) == 1 {
+			recv = info.Defs[fb.Decl.Recv.List[0].Names[0]]
+		}
+		parent := map[ast.Node]ast.Node{}
+		var stack []ast.Node
+		ast.Inspect(fb.Body, func(x ast.Node) bool {
+			if x == nil {
+				stack = stack[:len(stack)-1]
+				return false
+			}
+			if len(stack) > 0 {
+				parent[x] = stack[len(stack)-1]
+			}
+			stack = append(stack, x)
+			return true
+		})
+		k := 0
+		inspectShallow(fb.Body, func(x ast.Node) bool {
+			call, ok := x.(*ast.CallExpr)
+			if !ok {
+				return true
+			}
+			sel, ok := ast.Unparen(call.Fun).(*ast.SelectorExpr)
+			if !ok {
+				return true
+			}
+			s := info.Selections[sel]
+			if s == nil || s.Kind() != types.FieldVal {
+				return true
+			}
+			if _, isFn := s.Type().Underlying().(*types.Signature); !isFn {
+				return true
+			}
+			tv, ok := info.Types[sel.X]
+			if !ok || !isNamed(tv.Type, "fp", "Iterator") {
+				return true
+			}
+			k++
+			n++
+			key := fb.Name + "/" + exprString(call.Fun) + "#" + itoa(k)
+			if o := objOf(info, sel.X); o != nil && o == recv {
+				c.Add(rule, key, call.Pos(), core.Discharged, "on the receiver (decided by R-NILGUARD)")
+				return true
+			}
+			// explicit nil test of the same field expression in an enclosing condition
+			guarded := false
+			want := exprString(sel)
+			for q := parent[ast.Node(call)]; q != nil; q = parent[q] {
+				if is, ok := q.(*ast.IfStmt); ok && nodeContains(is.Cond, true, func(y ast.Node) bool {
+					be, ok := y.(*ast.BinaryExpr)
+					return ok && be.Op == token.NEQ && ((exprString(be.X) == want && isNilIdent(info, be.Y)) || (exprString(be.Y) == want && isNilIdent(info, be.X)))
+				}) {
+					guarded = true
+				}
+			}
+			if guarded {
+				c.Add(rule, key, call.Pos(), core.Discharged, "under an explicit nil test of the field")
+			} else {
+				c.Add(rule, key, call.Pos(), core.Violated, exprString(call)+" calls the closure field of an Iterator value that is not the receiver, without a nil test: when that value is the zero Iterator (an empty `var it fp.Iterator[T]`, e.g. flattened in from another Concat) this is a nil-function call instead of 'empty'")
+			}
+			return true
+		})
+	}
+	c.Floor(rule, "direct calls of Iterator closure fields", n, floor)
+}
+
+// ---------------------------------------------------------------- R-NOSHAREDCELL
+
+// NoSharedCell: an Eval value carries no mutable cell that its evaluations share.
+func NoSharedCell(c *core.Ctx, rule string, p *packages.Package, floor int) {
+	c.Rule(rule, "in package lazy, a function literal assigns to a variable captured from the enclosing function only inside the literal handed to (*sync.Once).Do (the memoiser's result cell, written once): any other captured cell is allocated once per Eval value and written by every evaluation of it, so overlapping evaluations (concurrent Get, or re-entrant Resume) read each other's intermediate values")
+	info := p.TypesInfo
+	n := 0
+	for _, fb := range funcBodies(c, []*packages.Package{p}) {
+		if fb.Lit != nil || fb.Decl == nil {
+			continue
+		}
+		n++
+		// literals handed to once.Do
+		onceLits := map[*ast.FuncLit]bool{}
+		ast.Inspect(fb.Body, func(x ast.Node) bool {
+			if call, ok := x.(*ast.CallExpr); ok {
+				if callee := calleeOf(info, call); callee != nil && callee.Pkg() != nil && callee.Pkg().Path() == "sync" && callee.Name() == "Do" {
+					for _, a := range call.Args {
+						if fl, ok := ast.Unparen(a).(*ast.FuncLit); ok {
+							onceLits[fl] = true
+						}
+					}
+				}
+			}
+			return true
+		})
+		var bad ast.Node
+		var badVar types.Object
+		var walk func(nd ast.Node, inLit, inOnce bool)
+		walk = func(nd ast.Node, inLit, inOnce bool) {
+			ast.Inspect(nd, func(x ast.Node) bool {
+				if bad != nil {
+					return false
+				}
+				if fl, ok := x.(*ast.FuncLit); ok && ast.Node(fl) != nd {
+					walk(fl.Body, true, inOnce || onceLits[fl])
+					return false
+				}
+				if !inLit || inOnce {
+					return true
+				}
+				check := func(l ast.Expr, at ast.Node) {
+					if o, ok := objOf(info, l).(*types.Var); ok && o.Pkg() != nil && o.Parent() != o.Pkg().Scope() {
+						// declared in the enclosing declaration's body but outside every literal?
+						if o.Pos() >= fb.Body.Pos() && o.Pos() <= fb.Body.End() && !insideAnyLit(fb.Body, o.Pos()) {
+							bad, badVar = at, o
+						}
+					}
+				}
+				switch s := x.(type) {
+				case *ast.AssignStmt:
+					if s.Tok != token.DEFINE {
+						for _, l := range s.Lhs {
+							check(l, s)
+						}
+					}
+				case *ast.IncDecStmt:
+					check(s.X, s)
+				}
+				return true
+			})
+		}
+		walk(fb.Body, false, false)
+		if bad != nil {
+			c.Add(rule, fb.Name, bad.Pos(), core.Violated, "`"+nodeString(c, bad)+"` writes "+badVar.Name()+", a variable of "+fb.Name+" captured by the closures of the Eval it returns: the cell is shared by every evaluation of that Eval, so two overlapping evaluations combine values from different runs")
+		} else {
+			c.Add(rule, fb.Name, fb.Decl.Pos(), core.Discharged, "no shared cell written by the returned closures")
+		}
+	}
+	c.Floor(rule, "functions of package lazy", n, floor)
+}
+
+func insideAnyLit(body ast.Node, pos token.Pos) bool {
+	in := false
+	ast.Inspect(body, func(x ast.Node) bool {
+		if fl, ok := x.(*ast.FuncLit); ok && fl.Pos() <= pos && pos <= fl.End() {
+			in = true
+		}
+		return !in
+	})
+	return in
+}
